@@ -92,7 +92,8 @@ def run_property(pid, tier, seed):
     spec = PROPERTIES[pid]
     w = world()
     known_all = load_known()
-    known = [k for k in known_all if k.get("property") == pid and k.get("status", "open") == "open"]
+    # an open finding is matched by obligation + input class whichever property's check meets the obligation
+    known = [k for k in known_all if k.get("status", "open") == "open"]
     fqs = list(spec.get("functions") or [])
     if not fqs:
         fqs = [k for k, c in w.contracts.items() if pid in c.all_props() and not c.trusted]
